@@ -282,7 +282,17 @@ def verdictReq (op : Op) (impl : String) : String × Bool :=
         | .ok ds => (ds.zip im.frames).any (fun (d, (v, _)) => d.version != v) | .error _ => false) then ("0:version-field", nt) else
     match Spec.C18.spec crc32c crc32 (hasComp op) clogSpec x (im.frames.map (·.2)) with
     | .ok _ => ("1", nt)
-    | .error k => ("0:" ++ k, nt)
+    | .error k =>
+      -- the sink knew a version (pv ≥ 0) but a request was written at another one: the size accounting is for the
+      -- wrong layout; these size violations are a class of their own (outside the model's assumption)
+      let mismatch := decide (op.pv ≥ 0) && im.frames.any (fun (v, _) => v != op.pv)
+      let k' :=
+        if mismatch && (k == "flexible-produce-request-exceeds-max-write-bytes" || k == "produce-request-exceeds-max-write-bytes") then
+          "request-over-limit-when-written-version-differs-from-sink-version"
+        else if mismatch && (k == "message-set-exceeds-max-batch-bytes" || k == "batch-exceeds-max-batch-bytes") then
+          "batch-over-max-when-written-version-differs-from-sink-version"
+        else k
+      ("0:" ++ k', nt)
 
 /-! ## wire -/
 
@@ -332,7 +342,8 @@ def step (_ : Unit) (line : String) : Unit × String :=
     -- manual probe for requests too large to print: only `R <ver> <accounted> len=<n>`; verdict: n ≤ limit
     let limit := ((rest[5]?).bind (·.toInt?)).getD 0
     let lens := (toks impl).filterMap fun t => if t.startsWith "len=" then (t.drop 4).toString.toInt? else none
-    let v := if lens.any (· > limit) then "0:large-request-exceeds-max-write-bytes" else "1"
+    let v := if lens.isEmpty then "0:reqlen-run-failed"
+             else if lens.any (· > limit) then "0:large-request-exceeds-max-write-bytes" else "1"
     ((), s!"* | {v} | {boolStr (!lens.isEmpty)}")
   | _ => ((), "bad-op | - | 0")
 
